@@ -34,8 +34,6 @@ CONSTANTS MaxRows, MaxLen,  \* shapes: 1..MaxRows rows of length 1..MaxLen
                             \* ra.py (slice.indices per axis / per row, integer-typed empty index arrays,
                             \* constructor accepts empty data and keeps trailing element dimensions,
                             \* ra[i, j] returns the element)
-          IndexCast,        \* TRUE: _convert_from_2d casts its index arrays to intp before any arithmetic
-                            \* (proposed repair); FALSE: the arithmetic runs in the caller's index dtype
           LongSel,          \* Part 6: the shapes of LongCatalogue (by position) this run handles ({} = none)
           LongKinds,        \*         the index kinds this run handles
           LongMaxSel,       \*         slices of the long family select at most this many positions per axis ...
@@ -204,19 +202,44 @@ WhereMask(m) ==
 (* _convert_from_2d((fi, si), lengths, starts) incl. _handle_negative_indices *)
 (* and the "row too short" check; fi and si have equal length here (a single  *)
 (* column index has been repeated before)                                     *)
-ConvertFrom2d(f, s, ls) ==
+(*                                                                            *)
+(* The two index arrays keep the dtype the caller gave them (np.array(x) of    *)
+(* an int8 array / np.int8 scalar / list of np.int8 is an int8 array), and     *)
+(* _handle_negative_indices adds the axis length IN PLACE, i.e. in that dtype. *)
+(* rb / cb name the dtype of the row / column index array: 0 = a type as wide  *)
+(* as intp (nothing in scope leaves its range), 8 / 16 = a signed type of that *)
+(* many bits, U64 = uint64.                                                    *)
+(*   rows:    `first += len(starts)` adds a Python int: when the row count     *)
+(*            does not fit the dtype numpy (NEP 50) raises OverflowError;      *)
+(*   columns: `second[neg] += lengths[first[neg]]` adds an int64 array with    *)
+(*            same-kind casting: the sum wraps modulo 2^bits;                  *)
+(*   uint64:  `starts[first] + second` of an int64 and a uint64 array is a     *)
+(*            float64 array, which cannot index the data.                      *)
+(* (Proposed repair: cast both arrays to intp first; then rb = cb = 0 always.   *)
+(* Whether the tree still computes in the caller's dtype is recorded in        *)
+(* props/c05.py, NARROW_INDEX_DEFECT_REPAIRED / UINT64_INDEX_DEFECT_REPAIRED.) *)
+U64 == -64
+TMax(bits) == 2^(bits - 1) - 1
+WrapT(v, bits) == IF bits = 0 THEN v ELSE LET m == 2^bits IN ((v + m \div 2) % m) - m \div 2
+
+ConvertFrom2dT(f, s, ls, rb, cb) ==
   LET n == Len(ls)
       m == Len(f)
       r1(k) == IF f[k] < 0 THEN f[k] + n ELSE f[k]
   IN IF ~Patched /\ m = 0 THEN Fail("IndexError/empty (float) index array")
+     ELSE IF rb \in {8, 16} /\ n > TMax(rb) /\ \E k \in 1..m : f[k] < 0
+     THEN Fail("OverflowError/the row count does not fit the dtype of the row index")
      ELSE IF \E k \in 1..m : r1(k) < 0 THEN Fail("IndexError/row below -n")
      ELSE IF \E k \in 1..m : r1(k) >= n THEN Fail("IndexError/row beyond n")
-     ELSE LET c1(k) == IF s[k] < 0 THEN s[k] + ls[r1(k) + 1] ELSE s[k] IN
+     ELSE LET c1(k) == IF s[k] < 0 THEN WrapT(s[k] + ls[r1(k) + 1], IF cb \in {8, 16} THEN cb ELSE 0) ELSE s[k] IN
           IF \E k \in 1..m : c1(k) < 0 THEN Fail("IndexError/column below -len")
           ELSE IF \E k \in 1..m : ls[r1(k) + 1] <= c1(k) THEN Fail("IndexError/row too short")
+          ELSE IF cb = U64 /\ m > 0 THEN Fail("IndexError/int64 + uint64 gives a float64 index array")
           ELSE [ok |-> TRUE, why |-> "",
                 rows |-> [k \in 1..m |-> r1(k)],
                 flat |-> [k \in 1..m |-> Starts(ls)[r1(k) + 1] + c1(k)]]
+
+ConvertFrom2d(f, s, ls) == ConvertFrom2dT(f, s, ls, 0, 0)
 
 Gather(data, fl) == [k \in 1..Len(fl) |-> data[fl[k] + 1]]
 
@@ -231,15 +254,21 @@ ImplErr(why) == [tag |-> "Err", v |-> <<>>, why |-> why]
 
 (* the whole of __getitem__ as one expression (the step machine below does    *)
 (* the same in steps; StepsAgree checks that both coincide)                   *)
-ImplGet(ls, x, ed) ==
-  LET rows == RowsOf(ls)
-      data == Flatten(rows)
-      Finish(ii, wrap, isnd) ==
+(* rows = RowsOf(ls) and data = Flatten(rows) are passed in so that an emission  *)
+(* over many indices of one shape builds them once                             *)
+(* rb / cb: the dtype of the caller's row / column index (see ConvertFrom2dT);   *)
+(* it reaches _convert_from_2d only in the forms without a slice: the other    *)
+(* forms build their index arrays themselves (np.asarray(.., dtype=int),       *)
+(* np.arange, np.where)                                                        *)
+ImplGetT(rows, data, ls, x, ed, rb, cb) ==
+  LET FinishT(ii, wrap, isnd, typed) ==
         IF ~ii.ok THEN ImplErr(ii.why)
-        ELSE LET cv == ConvertFrom2d(ii.fi, ii.si, ls) IN
+        ELSE LET cv == IF typed THEN ConvertFrom2dT(ii.fi, ii.si, ls, rb, cb)
+                       ELSE ConvertFrom2d(ii.fi, ii.si, ls) IN
              IF ~cv.ok THEN ImplErr(cv.why)
              ELSE IF wrap THEN Wrap(Gather(data, cv.flat), ii.nl, isnd, ed)
                   ELSE Flat(Gather(data, cv.flat))
+      Finish(ii, wrap, isnd) == FinishT(ii, wrap, isnd, FALSE)
       Direct(f, s) == [ok |-> TRUE, why |-> "", fi |-> f, si |-> s, nl |-> <<>>]
   IN CASE x.t \in {"I", "S", "L"} -> Get(rows, x)          \* handled by numpy on _array
        [] x.t = "M" -> LET w == WhereMask(x.m) IN Finish(Direct(w.fi, w.si), FALSE, FALSE)
@@ -250,10 +279,19 @@ ImplGet(ls, x, ed) ==
               [] x.r.t = "I" /\ x.c.t = "S" -> Get(rows, x)  \* self._array[i][slice]: numpy
               [] x.r.t = "L" /\ x.c.t = "S" -> Finish(IisFromSlices(x.r.l, x.c, ls), TRUE, TRUE)
               [] x.r.t = "I" /\ x.c.t = "I" ->
-                   LET o == Finish(Direct(<<x.r.i>>, <<x.c.i>>), FALSE, FALSE)
+                   LET o == FinishT(Direct(<<x.r.i>>, <<x.c.i>>), FALSE, FALSE, TRUE)
                    IN IF Patched /\ o.tag = "Flat" THEN Scalar(o.v[1]) ELSE o   \* pinned: array of one
-              [] x.r.t = "L" /\ x.c.t = "I" -> Finish(Direct(x.r.l, Repeat(x.c.i, Len(x.r.l))), FALSE, FALSE)
-              [] x.r.t = "L" /\ x.c.t = "L" -> Finish(Direct(x.r.l, x.c.l), FALSE, FALSE)
+              [] x.r.t = "L" /\ x.c.t = "I" -> FinishT(Direct(x.r.l, Repeat(x.c.i, Len(x.r.l))), FALSE, FALSE, TRUE)
+              [] x.r.t = "L" /\ x.c.t = "L" -> FinishT(Direct(x.r.l, x.c.l), FALSE, FALSE, TRUE)
+              [] x.r.t = "I" /\ x.c.t = "L" ->     \* one row, several columns: lengths[[i]] / starts[[i]] broadcast;
+                   \* the row index [i] is resolved (and can fail) whatever the columns, even without any
+                   LET rowalone == ConvertFrom2dT(<<x.r.i>>, <<0>>, ls, rb, 0)
+                   IN IF ~rowalone.ok THEN ImplErr(rowalone.why)
+                      ELSE FinishT(Direct(Repeat(x.r.i, Len(x.c.l)), x.c.l), FALSE, FALSE, TRUE)
+
+ImplGetR(rows, data, ls, x, ed) == ImplGetT(rows, data, ls, x, ed, 0, 0)
+
+ImplGet(ls, x, ed) == ImplGetR(RowsOf(ls), Flatten(RowsOf(ls)), ls, x, ed)
 
 (* ========================================================================== *)
 (* Part 4: index classes                                                      *)
@@ -271,8 +309,8 @@ RowFeature(n, r) ==
                     ELSE IF Sel(n, r) = <<>> THEN "row-selection-empty"
                     ELSE ""
 
-ColFeature(rows, sel, c) ==
-  LET lensel == [k \in 1..Len(sel) |-> Len(rows[sel[k] + 1])] IN
+ColFeature(ls, sel, c) ==
+  LET lensel == [k \in 1..Len(sel) |-> ls[sel[k] + 1]] IN
   CASE c.t = "I" -> "plain"
     [] c.t = "L" -> IF Len(c.l) = 0 THEN "col-list-empty" ELSE "plain"
     [] c.t = "S" -> IF c.c # None /\ c.c < 0 THEN
@@ -284,8 +322,7 @@ ColFeature(rows, sel, c) ==
 (* indices for which the definition itself is an error come first: the class  *)
 (* says which axis is left                                                    *)
 ClassG(ls, x, g) ==        \* g = Get(RowsOf(ls), x), passed in to avoid recomputation
-  LET rows == RowsOf(ls)
-      n == Len(ls)
+  LET n == Len(ls)
   IN CASE x.t = "I" -> IF Sel(n, x) = Bad THEN "I/row-index-outside" ELSE "I/plain"
        [] x.t = "S" -> IF Sel(n, x) = <<>> THEN "S/row-selection-empty" ELSE "S/plain"
        [] x.t = "L" -> IF Len(x.l) = 0 THEN "L/row-list-empty"
@@ -300,7 +337,7 @@ ClassG(ls, x, g) ==        \* g = Get(RowsOf(ls), x), passed in to avoid recompu
                ELSE IF x.r.t = "L" /\ x.c.t = "L" THEN
                  (IF rf # "" THEN form \o "/" \o rf ELSE form \o "/plain")
                ELSE IF rf # "" THEN "(" \o x.r.t \o ",*)/" \o rf
-               ELSE LET cf == ColFeature(rows, Sel(n, x.r), x.c) IN
+               ELSE LET cf == ColFeature(ls, Sel(n, x.r), x.c) IN
                     IF x.c.t = "S" /\ x.r.t # "I" THEN "(*,S)/" \o cf ELSE form \o "/" \o cf
 
 Class(ls, x) == ClassG(ls, x, Get(RowsOf(ls), x))
@@ -482,7 +519,7 @@ Next == Choose \/ Dispatch \/ SliceToList \/ Iis \/ Convert \/ GatherStep \/ Wra
 Spec == Init /\ [][Next]_vars
 
 (* ---- invariants -------------------------------------------------------------- *)
-TypeOK == pc \in {"dispatch", "slice2list", "iis", "convert", "gather", "wrap", "done", "choose", "attr"}
+TypeOK == pc \in {"dispatch", "slice2list", "iis", "convert", "gather", "wrap", "done", "choose", "attr", "long"}
 
 (* representation lemmas of Ragged.tla on every shape                          *)
 Representation ==
@@ -523,6 +560,17 @@ MisshapedOnlyVectorEqualLengths ==
 
 DepartAlwaysIsTight == (pc = "done" /\ Class(lens, ix) \in DepartAlways) => Departs
 
+(* For which dtype of the caller's index does the arithmetic of the code leave  *)
+(* the definition?  <<row int8, row int16, column int8, column int16, column    *)
+(* uint64>>, 1 = the transcription computing in that dtype departs from Get.    *)
+(* The driver hands every index over in every integer form and uses these bits  *)
+(* only to name the cases that wait for the repair.                             *)
+Hazards(rows, data, ls, x, g) ==
+  LET H(rb, cb) == IF ResEq(g, ImplGetT(rows, data, ls, x, 0, rb, cb)) THEN 0 ELSE 1
+  IN IF x.t = "P" /\ x.r.t # "S" /\ x.c.t # "S"
+     THEN <<H(8, 0), H(16, 0), H(0, 8), H(0, 16), H(0, U64)>>
+     ELSE <<0, 0, 0, 0, 0>>
+
 (* ---- batch emission for replay ------------------------------------------------ *)
 (* one line per (shape, kind, first slot) with every second slot of the scope  *)
 EncIx(x) == CASE x.t = "I" -> [i |-> x.i]
@@ -537,7 +585,8 @@ EncRes(r) == CASE r.tag = "Err"       -> (IF "why" \in DOMAIN r THEN [e |-> r.wh
                [] r.tag = "Scalar"    -> [v |-> r.v]
 
 (* a case: <<second slot, Get, class, transcription (0 when it equals Get),     *)
-(* 1 when the transcription for vector elements is Misshaped, ok>> where `ok`  *)
+(* 1 when the transcription for vector elements is Misshaped, ok, hazards>>    *)
+(* (hazards: see Part 6) where `ok`                                            *)
 (* is the design-level ReadEq for the case: TLC evaluates it on everything it  *)
 (* emits and the driver only looks for a FALSE.                                *)
 EmitCase(ls, x, b) ==
@@ -549,7 +598,8 @@ EmitCase(ls, x, b) ==
       eq0 == ResEq(g, m0)
   IN <<EncIx(b), EncRes(g), cls, IF eq0 THEN 0 ELSE EncRes(m0), IF mis THEN 1 ELSE 0,
        /\ cls \in DepartAlways => ~eq0
-       /\ cls \notin (DepartAlways \cup DepartSometimes) => eq0>>
+       /\ cls \notin (DepartAlways \cup DepartSometimes) => eq0,
+       Hazards(RowsOf(ls), Flatten(RowsOf(ls)), ls, x, g)>>     \* Part 6: index dtypes that leave the definition
 
 EmitInv ==
   (Emit /\ pc = "choose") =>
@@ -568,4 +618,129 @@ InitAttr ==
 AttrInv ==
   (Emit /\ pc = "attr") =>
      PrintT(<<"ATTR", ToJson([lens |-> lens, edim |-> edim, attr |-> Attributes(RowsOf(lens), edim)])>>)
+
+(* ========================================================================== *)
+(* Part 6: long rows, many rows                                               *)
+(* ========================================================================== *)
+(* The exhaustive family above has axes of at most 4.  Here: a few shapes      *)
+(* whose rows (or whose number of rows) exceed what int8 / uint8 / int16 can   *)
+(* count, read with index expressions whose bounds sit at the ends of the      *)
+(* axes and at the limits of those types.  The expected result is the same     *)
+(* Get; what is new is only the scope (and the stride of the cell ids).        *)
+Fix(f) == f \o <<>>      \* forces TLC to build the sequence once
+
+LongCatalogue ==
+  << <<300, 5, 260>>,                                  \* 1 beyond int8 and uint8, next to a short row
+     <<130, 129>>,                                     \* 2 just beyond int8: -1, -2, -3 do / do not leave the range
+     <<127, 128, 3>>,                                  \* 3 at the limit itself
+     Fix([k \in 1..130 |-> IF k % 3 = 0 THEN 2 ELSE 1]),  \* 4 more ROWS than int8 can count
+     <<5, 40000>>,                                     \* 5 beyond int16
+     <<33000, 2, 32768>> >>                            \* 6 the same, two long rows
+
+LongShapes == {LongCatalogue[i] : i \in LongSel}
+
+(* interesting positions on an axis of length n: its two ends from both sides, *)
+(* the limits of the narrow types and, for a negative index c, the pair        *)
+(* c + n = limit (fits) / limit + 1 (does not)                                 *)
+TypeMarks == {127, 128, 255, 256, 32767, 32768}
+SignedMax == {127, 32767}
+AxisPts(n) ==
+  {0, 1, -1, -2, n - 1, n, -n, -n - 1}
+  \cup {m \in TypeMarks : m <= n}
+  \cup UNION {{-m - 1, -m - 2} : m \in {q \in SignedMax : q < n}}
+  \cup UNION {{m - n, m + 1 - n} : m \in {q \in SignedMax : q < n}}
+
+RowPts(ls) == AxisPts(Len(ls))
+ColPts(ls) == UNION {AxisPts(ls[k]) : k \in 1..Len(ls)}
+LenSet(ls) == {ls[k] : k \in 1..Len(ls)}
+
+SelLen(s, n) == LET nm == Norm(s.a, s.b, s.c, n) IN RangeLen(nm[1], nm[2], nm[3])
+
+(* slices with bounds at the interesting positions, selecting few positions    *)
+LSlices(pts, axes) ==
+  {s \in {S(a, b, c) : a \in pts \cup {None}, b \in pts \cup {None}, c \in Steps} :
+      \A n \in axes : SelLen(s, n) <= LongMaxSel}
+
+(* ... and representatives that select much (the result-size bound LongMaxTot  *)
+(* decides at emission whether a case is kept)                                 *)
+LRepS == {S(None, None, None), S(1, None, None), S(None, -1, None), S(None, 2, None), S(-2, None, None),
+          S(None, None, -1), S(None, None, 2), S(None, None, -2), S(127, 130, None), S(-130, None, None),
+          S(None, -129, None), S(256, None, -1)}
+
+LRowSlices(ls) == LSlices(RowPts(ls), {Len(ls)}) \cup LRepS
+LColSlices(ls) == LSlices(ColPts(ls), LenSet(ls)) \cup LRepS
+
+(* lists: every single position; pairs and triples over a smaller set, with    *)
+(* repeated and unsorted entries                                               *)
+PairPts(n) == {0, -1, -2, n - 1, -n} \cup {m \in {128} : m < n} \cup {m + 1 - n : m \in {q \in SignedMax : q < n}}
+LLists(pts, pair) ==
+  {<<>>} \cup {<<c>> : c \in pts} \cup {<<c, d>> : c \in pair, d \in pair}
+         \cup {<<c, d, c>> : c \in {-1, 0}, d \in {-2, -1, 1}} \cup {<<-1, -1, -1>>, <<1, 0, -2>>}
+LRowLists(ls) == {L(l) : l \in LLists(RowPts(ls), PairPts(Len(ls)))}
+LColLists(ls) == {L(l) : l \in LLists(ColPts(ls), UNION {PairPts(ls[k]) : k \in 1..Len(ls)})}
+LRepRowL == {L(<<>>), L(<<0>>), L(<<-1>>), L(<<0, 1>>), L(<<1, 0>>), L(<<0, 0>>), L(<<-1, 0>>), L(<<-1, 0, -1>>)}
+LRepColL(ls) == {L(<<>>), L(<<0>>), L(<<-1>>), L(<<0, -1>>), L(<<-2, -2>>), L(<<-1, 0, -1>>), L(<<1, 0, -2>>)}
+                \cup {L(<<c>>) : c \in ColPts(ls)}
+
+LMasks(ls) ==
+  LET tot == Total(ls)
+      fl == {[f \in 1..tot |-> FALSE], [f \in 1..tot |-> TRUE], [f \in 1..tot |-> f = 1], [f \in 1..tot |-> f = tot],
+             [f \in 1..tot |-> f % 2 = 0], [f \in 1..tot |-> f % 128 = 0]}
+  IN IF tot > LongMaxTot THEN {} ELSE {M(Partition(f, ls)) : f \in fl}
+
+LKinds == {"I", "S", "L", "M", "II", "IS", "IL", "SS", "SI", "SL", "LS", "LL", "LI"}
+
+LFirsts(kind, ls) ==
+  CASE kind \in {"I", "II", "IS", "IL"}   -> {I(r) : r \in RowPts(ls)}
+    [] kind \in {"S", "SS", "SI", "SL"}   -> LRowSlices(ls)
+    [] kind \in {"L", "LS", "LL", "LI"}   -> LRowLists(ls)
+    [] kind = "M"                         -> LMasks(ls)
+
+LSeconds(kind, a, ls) ==
+  CASE kind \in {"I", "S", "L", "M"} -> {I(0)}        \* unused
+    [] kind \in {"II", "SI", "LI"}   -> {I(c) : c \in ColPts(ls)}
+    [] kind = "IS" -> LColSlices(ls)
+    [] kind = "IL" -> LColLists(ls)
+    [] kind = "SS" -> IF a \in LRepS THEN LColSlices(ls) ELSE LRepS
+    [] kind = "LS" -> IF a \in LRepRowL THEN LColSlices(ls) ELSE LRepS
+    [] kind = "SL" -> IF a \in LRepS THEN LColLists(ls) ELSE LRepColL(ls)
+    [] kind = "LL" -> {b \in LColLists(ls) : Len(b.l) = Len(a.l)}    \* paired: equally long
+
+InitLong ==
+  /\ lens \in LongShapes
+  /\ \E kind \in LongKinds : \E a \in LFirsts(kind, lens) : ix = [t |-> "B", kind |-> kind, a |-> a]
+  /\ edim = 0
+  /\ pc = "long"
+  /\ Blank
+
+ResSize(g) == CASE g.tag = "Rows" -> Total(Lengths(g.v))
+                [] g.tag \in {"Flat", "Col"} -> Len(g.v)
+                [] OTHER -> 1
+
+(* as EmitCase, plus the hazards; `ok`: the transcription with wide index types *)
+(* equals the definition                                                        *)
+(* (a column slice that would select more than LongMaxTot elements is recognised *)
+(* from the slice alone, before anything is built)                               *)
+EmitLongCase(rows, data, ls, x, b) ==
+  LET g   == Get(rows, x)
+      m0  == ImplGetR(rows, data, ls, x, 0)
+      eq0 == ResEq(g, m0)
+      sel == Sel(Len(ls), x.r)
+      big == /\ x.t = "P" /\ x.c.t = "S" /\ sel # Bad
+             /\ Total([k \in 1..Len(sel) |-> SelLen(x.c, ls[sel[k] + 1])]) > LongMaxTot
+  IN IF big THEN [sz |-> LongMaxTot + 1, c |-> <<>>]
+     ELSE [sz |-> ResSize(g),
+           c |-> <<EncIx(b), EncRes(g), ClassG(ls, x, g), IF eq0 THEN 0 ELSE EncRes(m0), 0, Patched => eq0,
+                   Hazards(rows, data, ls, x, g)>>]
+
+EmitLongInv ==
+  pc = "long" =>
+     LET rows == Fix([k \in 1..Len(lens) |-> Fix(RowsOf(lens)[k])])
+         data == Fix(Flatten(rows))
+         bs == SX!SetToSeq(LSeconds(ix.kind, ix.a, lens))
+         all == [k \in 1..Len(bs) |-> EmitLongCase(rows, data, lens, Mk(ix.kind, ix.a, bs[k]), bs[k])]
+         kept == SelectSeq(all, LAMBDA e : e.sz <= LongMaxTot)
+     IN PrintT(<<"CASE", ToJson([lens |-> lens, kind |-> ix.kind, a |-> EncIx(ix.a), long |-> 1,
+                                 res |-> [k \in 1..Len(kept) |-> kept[k].c]])>>)
+
 =============================================================================
